@@ -54,6 +54,7 @@ func RunProperty(repo, tier, prop string, seed int64) (*core.Report, error) {
 	if err != nil {
 		return nil, err
 	}
+	defer ctx.Release()
 	func() {
 		defer func() {
 			if r := recover(); r != nil {
